@@ -417,9 +417,53 @@ def _gauss_cases(table) -> list[dict]:
 def replay(case) -> dict:
     if case["kind"] == "gauss":
         return replay_gauss(case)
+    if case["kind"] == "rescale1":
+        return replay_rescale(case)
     if case["kind"] == "atoms1":
         return replay_atoms(case)
     return replay_units(case) if case["kind"] == "units" else replay_prog(case)
+
+
+def replay_rescale(case) -> dict:
+    """Pipe.tla KeepAsIs: a rescaling provider resamples by original_scale / scale unless the two agree to within the RELATIVE
+    tolerance; every route to the same provider (array, list of arrays, file with the scale given or read from the header)."""
+    import os
+    import tempfile
+
+    import mrcfile
+    from acryo import pipe as _pp
+
+    o, s, tol = case["o"] / 1000.0, case["s"] / 1000.0, case["tolm"] / 1000.0
+    img = np.random.default_rng(case["o"] + case["s"]).normal(size=(12, 16, 20)).astype(np.float32)
+    want_shape = (12, 16, 20) if case["keep"] else tuple(case["lens"])
+    desc = dict(part="rescale", original_scale=o, scale=s, tol=tol, keep=case["keep"])
+    fails = []
+
+    def judge(route, got):
+        got = np.asarray(got)
+        if got.shape != want_shape:
+            fails.append(dict(desc, clause="RescaleDecidedByRatio", route=route, observed=list(got.shape), expected=list(want_shape)))
+        elif case["keep"] and not np.array_equal(got, img):
+            fails.append(dict(desc, clause="KeptImageIsTheImage", route=route))
+
+    judge("from_array", engine.api(_pp.from_array(img, original_scale=o, tol=tol), s))
+    many = engine.api(_pp.from_arrays([img, img], original_scale=o, tol=tol), s)
+    judge("from_arrays", many[1])
+    tmpd = tempfile.mkdtemp(prefix="c19r-", dir=str(engine.WORK)) if engine.WORK.exists() else tempfile.mkdtemp(prefix="c19r-")
+    try:
+        path = os.path.join(tmpd, "v.mrc")
+        with mrcfile.new(path, overwrite=True) as m:
+            m.set_data(img)
+            m.voxel_size = o * 10.0
+        judge("from_file(original_scale)", engine.api(_pp.from_file(path, original_scale=o, tol=tol), s))
+        if case["o"] >= 100:        # the header keeps the voxel size in single precision: only where that cannot move the decision
+            judge("from_file(header)", engine.api(_pp.from_file(path, tol=tol), s))
+        judge("from_files", engine.api(_pp.from_files([path, path], original_scale=o, tol=tol), s)[0])
+    finally:
+        import shutil
+
+        shutil.rmtree(tmpd, ignore_errors=True)
+    return dict(failures=fails)
 
 
 def run(rep: engine.Report, tier: str, seed: int):
@@ -428,16 +472,20 @@ def run(rep: engine.Report, tier: str, seed: int):
     units = [c for c in cases if c.get("kind") == "units"]
     gtab = [c for c in cases if c.get("kind") == "gauss"]
     atab = [c for c in cases if c.get("kind") == "atoms"]
-    progs = [c for c in cases if c.get("kind") not in ("units", "gauss", "atoms")]
+    rtab = [c for c in cases if c.get("kind") == "rescale"]
+    progs = [c for c in cases if c.get("kind") not in ("units", "gauss", "atoms", "rescale")]
     if not progs or not units or not gtab:
         raise engine.MachineryError("MC_C19 emitted nothing")
     gauss = _gauss_cases(gtab[0])
     atoms = [dict(c, kind="atoms1") for c in (atab[0]["cases"] if atab else [])]
     if not atoms:
         raise engine.MachineryError("MC_C19 emitted no from_atoms table")
-    allc = progs + units + gauss + atoms
+    rescale = [dict(c, kind="rescale1") for c in (rtab[0]["cases"] if rtab else [])]
+    if len(rescale) < 40:
+        raise engine.MachineryError(f"MC_C19 emitted {len(rescale)} rescale decisions")
+    allc = progs + units + gauss + atoms + rescale
     results = engine.parallel_replay("harness.props.c19", "replay", allc, chunksize=64)
-    engine.collect(rep, allc, results, key=lambda c: c if c["kind"] in ("units", "gauss", "atoms1") else (c["e"], c["s2"]))
+    engine.collect(rep, allc, results, key=lambda c: c if c["kind"] in ("units", "gauss", "atoms1", "rescale1") else (c["e"], c["s2"]))
     rep.exhaustive = True
     rep.traces_validated = len(allc)
     rep.samples = [dict(e=progs[0]["e"], s2=progs[0]["s2"], value=progs[0]["value"]), dict(e=progs[-1]["e"], value=progs[-1]["value"])]
